@@ -44,9 +44,22 @@ def display_task(state, working):
     return state
 
 
+def state_digests(rec):
+    """crc32 digests of the live state at the 'recorded' instant of every step (measure of distinct states reached)."""
+    import zlib
+
+    out = set()
+    for s in rec.steps:
+        sn = s.ph.get("recorded")
+        if sn is not None:
+            out.add(zlib.crc32(repr((sn["T"], sn["C"], sn["W"], sn["F"], sn["P"])).encode()))
+    return out
+
+
 def base_result(tr):
     res = campaign.Result()
     res.steps = tr.rec.n_recorded
+    res.rec = tr.rec  # the campaign driver derives the distinct-state measure from it on sampled runs
     res.count("runs")
     res.count("steps", tr.rec.n_recorded)
     if not tr.out.ok:
